@@ -64,7 +64,7 @@ FILES = ['isomorphism.sdf', 'mcs.sdf', 'standardize.sdf', 'arenes.sdf', 'hbonds.
 RXN_OBS = ['rxn_str', 'rxn_fmt_m', 'rxn_fmt_h', 'rxn_cgr', 'rxn_cgr_order', 'rxn_centers', 'rxn_canonicalize', 'rxn_standardize',
            'rxn_kekule', 'rxn_thiele', 'rxn_members', 'rxn_member_orders', 'rxn_member_atoms_order', 'rxn_member_mapping', 'rxn_hash_eq',
            'rxn_clean_stereo', 'rxn_canonicalize_log', 'rxn_standardize_log', 'rxn_remove_reagents', 'rxn_contract_ions',
-           'rxn_fix_mapping', 'rxn_fix_groups_mapping', 'rxn_clean_isotopes', 'rxn_implicify_hydrogens',
+           'rxn_fix_mapping', 'rxn_fix_groups_mapping', 'rxn_keep_reagents', 'rxn_keep_reagents_rules', 'rxn_clean_isotopes', 'rxn_implicify_hydrogens',
            'rxn_explicify_hydrogens']
 RXN_SMILES = ['CCO.CC(=O)O>>CC(=O)OCC.O', '[CH3:1][CH2:2][OH:3].[CH3:4][C:5](=[O:6])[OH:7]>>[CH3:4][C:5](=[O:6])[O:3][CH2:2][CH3:1].[OH2:7]',
               'c1ccccc1.Cl>[Al](Cl)(Cl)Cl>Clc1ccccc1', 'C=C.C=CC=C>>C1CCC=CC1', 'CC(=O)C>>CC(O)=C', 'OC(=O)c1ccccc1.CN>>CNC(=O)c1ccccc1.O',
@@ -72,6 +72,8 @@ RXN_SMILES = ['CCO.CC(=O)O>>CC(=O)OCC.O', '[CH3:1][CH2:2][OH:3].[CH3:4][C:5](=[O
               'CC#N.O>>CC(N)=O', 'c1ccncc1.CI>>C[n+]1ccccc1.[I-]', 'O=C1CCCCC1.NO>>ON=C1CCCCC1.O', 'CCBr.[Mg]>>CC[Mg]Br',
               'C1CC1.[H][H]>>CCC', 'N#N.[H][H].[H][H].[H][H]>>N.N',
               'C[CH2].[H][H]>>CC', '[CH3].[CH3]>>CC', 'CC[O]>>CC=O', 'C[CH]C.ClCl>>CC(Cl)C.[Cl]',     # radical members (CXSMILES block)
+              '[CH3:1][CH2:2][OH:3].[CH3:4][C:5](=[O:6])[OH:7].[Na+].[Cl-].[K+].O>>[CH3:4][C:5](=[O:6])[O:3][CH2:2][CH3:1].[OH2:7]',
+              'CCO.CC(O)=O.O.[Na+].[Cl-].ClCCl>>CC(=O)OCC.O.[Na+].[Cl-].ClCCl',      # several molecules become reagents at once
               'CCO.CC(O)=O>[H+]>CC(=O)OCC.O', '[CH3:1][OH:2].CC(Cl)=O>N>[CH3:1][O:2]C(C)=O.Cl',       # unmapped / partially mapped atoms
               # atom-to-atom mapping errors in two groups at once (the mapping fixer has to remap several groups)
               '[CH3:1][C:2](=[O:3])[O:4][CH3:5].[CH3:6][C:7](=[O:8])[O:9][CH3:10].[OH2:11].[OH2:12]>>[CH3:1][C:2](=[O:4])[OH:3].[CH3:6][C:7](=[O:9])[OH:8].[CH3:5][OH:11].[CH3:10][OH:12]',
@@ -327,7 +329,7 @@ def _main(a, scratch):
     core_idx = [k for k, c in enumerate(corpus_all) if c[0] == 'smi' and c[1] in CORE_SMILES] + \
                [k for k, c in enumerate(corpus_all) if c[0] in ('rxnsmi',)][:6] + \
                [k for k, c in enumerate(corpus_all) if c[0] == 'rxnsmi' and (':11]' in c[1] or '[CH2]' in c[1] or '[CH3].' in c[1]
-                                                                             or '[O]' in c[1] or '[CH]' in c[1] or '>N>' in c[1])]
+                                                                             or '[O]' in c[1] or '[CH]' in c[1] or '>N>' in c[1] or '[K+]' in c[1] or 'ClCCl' in c[1])]
     first = core_idx + [k for k in special[:n // 4] if k not in set(core_idx)]
     chosen = (first + [k for k in idx if k not in set(first)])[:max(n, len(core_idx) + 40)]
     slice_n = T.get('slice', n)
